@@ -6,6 +6,13 @@ Leg R: for every enumerated case the real spec's accessors (column_names, column
        term_indices, term_slices, get_slice, get_term_indices, get_column_indices,
        variable_indices, subset) are queried with Term objects, printed forms and column names
        and compared with the ranges the specification derives from the structure.
+Leg M2/R2 (MC_Metadata over Metadata.tla): formulas whose factors are PYTHON EXPRESSIONS - a data column reaches the cells as operand,
+       positional argument, keyword argument or method receiver; stateful calls (center) nested inside a larger factor.  TLC proves
+       that "the columns of the terms that read v" is truthful (NonInterference: no other column moves when v changes) and that a subset
+       regenerates the parent's columns on the training data AND on follow-up data (SubsetRegenerates: the recorded statistics are keyed by
+       the stateful call, not by the factor), and refutes the two design errors "the walk skips keyword arguments" / "a subset keeps only
+       the state keyed by its factors".  Every emitted case is replayed: all accessors, variable_indices for every data column (used and
+       unused), every subset of the pick family rebuilt on both data sets.
 """
 from __future__ import annotations
 
@@ -18,6 +25,38 @@ from .. import matlib
 
 FRAMES = {}
 DATA_VARS = {"a": "a", "b": "b", "A": "A", "B": "B", "C(A, contr.sum)": "A", "C(B, contr.helmert)": "B", "C(B, contr.SAS)": "B", "n 1": "n 1", "I(`n 1`)": "n 1"}
+
+
+def accessors(spec, mm, out, names, ranges, case_terms, chk, tr):
+    """every index accessor of the spec against the names / per-term ranges the specification derives (shared by both families)"""
+    chk("column_names", list(spec.column_names), names)
+    if out == "pandas":
+        chk("frame labels", [str(c) for c in mm.columns], names)
+    chk("column_indices", tr(lambda: dict(spec.column_indices)), {n: i for i, n in enumerate(names)})
+    terms = [s_.term for s_ in spec.structure]        # structure order (clustered order when clustering is on)
+    chk("structure terms", [[f.expr for f in t.factors] for t in terms], case_terms)
+    chk("spec.terms is the same set of terms", sorted(str(t) for t in spec.terms), sorted(str(t) for t in terms))
+    chk("term_indices (in order)", tr(lambda: [list(v) for v in spec.term_indices.values()]), ranges)
+    chk("term_indices keys", tr(lambda: [[f.expr for f in t.factors] for t in spec.term_indices]), case_terms)
+    for t, rng in zip(terms, ranges):
+        printed = str(t)
+        sl = [rng[0], rng[-1] + 1] if rng else [0, 0]
+        chk(f"term_indices[Term {printed}]", tr(lambda: list(spec.term_indices[t])), rng)
+        chk(f"term_indices['{printed}']", tr(lambda: list(spec.term_indices[printed])), rng)
+        chk(f"term_slices[Term {printed}]", tr(lambda: [spec.term_slices[t].start, spec.term_slices[t].stop]), sl)
+        chk(f"term_slices['{printed}']", tr(lambda: [spec.term_slices[printed].start, spec.term_slices[printed].stop]), sl)
+        chk(f"get_slice(Term {printed})", tr(lambda: [spec.get_slice(t).start, spec.get_slice(t).stop]), sl)
+        if printed not in names or [names.index(printed)] == rng:
+            chk(f"get_slice('{printed}')", tr(lambda: [spec.get_slice(printed).start, spec.get_slice(printed).stop]), sl)
+        written = ":".join(matlib.quote(f.expr) for f in t.factors)        # a formula specification, not a printed form
+        chk(f"get_term_indices(['{written}'])", tr(lambda: list(spec.get_term_indices([written]))), rng)
+    for i, n in enumerate(names):
+        if names.count(n) == 1 and n not in [str(t) for t in terms]:
+            chk(f"get_slice(column '{n}')", tr(lambda: [spec.get_slice(n).start, spec.get_slice(n).stop]), [i, i + 1])
+        if names.count(n) == 1:
+            chk(f"get_column_indices('{n}')", tr(lambda: list(spec.get_column_indices(n))), [i])
+    chk("get_slice(int)", tr(lambda: [spec.get_slice(0).start, spec.get_slice(0).stop]), [0, 1])
+    return terms
 
 
 def replay_case(case):
@@ -51,33 +90,7 @@ def replay_case(case):
     for n in case["slices"]:
         ranges.append(list(range(start, start + n)))
         start += n
-    chk("column_names", list(spec.column_names), names)
-    if out == "pandas":
-        chk("frame labels", [str(c) for c in mm.columns], names)
-    chk("column_indices", tr(lambda: dict(spec.column_indices)), {n: i for i, n in enumerate(names)})
-    terms = [s_.term for s_ in spec.structure]        # structure order (clustered order when clustering is on)
-    chk("structure terms", [[f.expr for f in t.factors] for t in terms], case["terms"])
-    chk("spec.terms is the same set of terms", sorted(str(t) for t in spec.terms), sorted(str(t) for t in terms))
-    chk("term_indices (in order)", tr(lambda: [list(v) for v in spec.term_indices.values()]), ranges)
-    chk("term_indices keys", tr(lambda: [[f.expr for f in t.factors] for t in spec.term_indices]), case["terms"])
-    for t, rng in zip(terms, ranges):
-        printed = str(t)
-        sl = [rng[0], rng[-1] + 1] if rng else [0, 0]
-        chk(f"term_indices[Term {printed}]", tr(lambda: list(spec.term_indices[t])), rng)
-        chk(f"term_indices['{printed}']", tr(lambda: list(spec.term_indices[printed])), rng)
-        chk(f"term_slices[Term {printed}]", tr(lambda: [spec.term_slices[t].start, spec.term_slices[t].stop]), sl)
-        chk(f"term_slices['{printed}']", tr(lambda: [spec.term_slices[printed].start, spec.term_slices[printed].stop]), sl)
-        chk(f"get_slice(Term {printed})", tr(lambda: [spec.get_slice(t).start, spec.get_slice(t).stop]), sl)
-        if printed not in names or [names.index(printed)] == rng:
-            chk(f"get_slice('{printed}')", tr(lambda: [spec.get_slice(printed).start, spec.get_slice(printed).stop]), sl)
-        written = ":".join(matlib.quote(f.expr) for f in t.factors)        # a formula specification, not a printed form
-        chk(f"get_term_indices(['{written}'])", tr(lambda: list(spec.get_term_indices([written]))), rng)
-    for i, n in enumerate(names):
-        if names.count(n) == 1 and n not in [str(t) for t in terms]:
-            chk(f"get_slice(column '{n}')", tr(lambda: [spec.get_slice(n).start, spec.get_slice(n).stop]), [i, i + 1])
-        if names.count(n) == 1:
-            chk(f"get_column_indices('{n}')", tr(lambda: list(spec.get_column_indices(n))), [i])
-    chk("get_slice(int)", tr(lambda: [spec.get_slice(0).start, spec.get_slice(0).stop]), [0, 1])
+    terms = accessors(spec, mm, out, names, ranges, case["terms"], chk, tr)
     # variables: columns of the terms that read the data variable
     vi = tr(lambda: {str(k): list(v) for k, v in spec.variable_indices.items()})
     if isinstance(vi, str):
@@ -112,6 +125,132 @@ def replay_case(case):
     return bad
 
 
+def replay_meta(case):
+    """one case of MC_Metadata: python-expression factors (which columns they read is the model's Reads), fitted on the training frame;
+    accessors, variable indices, and every subset of the pick family rebuilt on the training frame and on the follow-up frame"""
+    formula = matlib.render_formula(case["written"], case["icpt"])
+    out = "pandas" if int(jhash(case["written"])[:4], 16) % 3 else ("numpy" if case["tid"] % 2 else "sparse")
+    base = {"formula": formula, "tid": case["tid"], "output": out, "full_rank": case["full_rank"]}
+    bad = []
+
+    def chk(what, got, exp):
+        if got != exp:
+            bad.append({**base, "why": what, "observed": got if not isinstance(got, Exception) else repr(got), "expected": exp})
+
+    def tr(fn):
+        try:
+            return fn()
+        except Exception as e:  # noqa
+            return "EXC:" + type(e).__name__
+
+    # follow-up data arrives under other row labels (the columns of a subset do not depend on them)
+    dfs = [matlib.gamma_frame(d["frame"], index_kind="default" if u == 0 else ["unsorted", "strings"][case["tid"] % 2]) for u, d in enumerate(case["datas"])]
+    o = matlib.observe_build(formula, dfs[0], output=out, full_rank=case["full_rank"])
+    if o["st"] != "OK":
+        return [{**base, "why": "exception", "observed": [o.get("cls"), o.get("msg")]}], 1
+    mm = o["mm"]
+    spec = mm.model_spec
+    names = case["names"]
+    ranges, start = [], 0
+    for n in case["slices"]:
+        ranges.append(list(range(start, start + n)))
+        start += n
+    terms = accessors(spec, mm, out, names, ranges, case["terms"], chk, tr)
+    # variables: for EVERY column of the data, exactly the columns of the terms whose factors read it (Metadata!VarIdx) - wherever in the
+    # expression the read happens; a column no term reads indexes nothing
+    vi = tr(lambda: {str(k): list(v) for k, v in spec.variable_indices.items()})
+    if isinstance(vi, str):
+        chk("variable_indices", vi, "a mapping")
+    else:
+        read = {v for t in case["reads"] for v, _ in t}
+        for rec in case["var_idx"]:
+            var, exp = rec["v"], rec["idx"]
+            if var in read:
+                how = sorted({pos for t in case["reads"] for v, pos in t if v == var})
+                chk(f"variable_indices['{var}'] (read as {', '.join(how)})", vi.get(var), exp)
+                chk(f"get_variable_indices(['{var}'])", tr(lambda: list(spec.get_variable_indices([var]))), exp)
+            else:
+                chk(f"variable_indices['{var}'] (read by no term)", vi.get(var, []), [])
+    # subset: regenerates exactly the parent's columns for the chosen terms, on the data of the fit and on new data.  Expected cells are the
+    # model's (TLC: SubsetRegenerates makes them the parent's columns); the real parent is replayed too, so a subset is never judged against
+    # a parent that itself left the model.
+    n_exec = 1
+    for u, (d, df) in enumerate(zip(case["datas"], dfs)):
+        where = "training data" if u == 0 else "new data"
+        exp = numpy.asarray(d["cells"], dtype=float).reshape(len(d["cells"]), len(names))
+
+        def same(m, cols):          # "same" or what differs: the columns a matrix should consist of are the parent's columns `cols`
+            n2, _, _, _, a2 = matlib.alpha_matrix(m, out)
+            if n2 != [names[j] for j in cols]:
+                return {"names": n2, "parent's": [names[j] for j in cols]}
+            if not numpy.array_equal(numpy.asarray(a2, dtype=float), exp[:, cols]):
+                return {"columns": n2, "cells": numpy.asarray(a2, dtype=float).tolist(), "parent's": exp[:, cols].tolist()}
+            return "same"
+
+        n_exec += 1
+        par = tr(lambda: same(spec.get_model_matrix(df, context={}), list(range(len(names)))))
+        chk(f"parent spec replayed on {where}", par, "same")
+        if par != "same":
+            continue
+        for pick in case["picks"]:
+            pick = [i - 1 for i in pick]
+            sub_terms = [":".join(matlib.quote(f.expr) for f in terms[i].factors) for i in pick]
+
+            def build():
+                sub = spec.subset(sub_terms)
+                order = [next(i for i in pick if terms[i] == t) for t in sub.terms]     # the subset's own term order
+                if sorted(order) != sorted(pick):
+                    return {"terms of the subset": [str(t) for t in sub.terms]}
+                return same(sub.get_model_matrix(df, context={}), [j for i in order for j in ranges[i]])
+
+            n_exec += 1
+            chk(f"subset({sub_terms}) on {where}", tr(build), "same")
+    return bad, n_exec
+
+
+def meta_leg(ctx: Ctx) -> None:
+    """MC_Metadata: theorems, refutation of the two design errors, emission, replay"""
+    from ..tlc import MachineryError, read_emitted, run_tlc, workdir
+
+    maxterms, slice_mod = (2, 2) if ctx.quick else (3, 8)       # the theorems are checked on every state; the replay takes the seed's slice
+    out = workdir("c10") / "metadata.ndjson"
+    out.unlink(missing_ok=True)
+    invs = ["SlicesOK", "NamesDistinct", "StatsIntegral", "NonInterference", "SubsetRegenerates"]
+    base = f'SPECIFICATION Spec\nCONSTANTS\n  MaxTerms = {maxterms}\n  Emit = TRUE\n  Variant = "code"\n  Slice = {ctx.seed % slice_mod}\n  SliceMod = {slice_mod}\n'
+    r = run_tlc("MC_Metadata", base + "".join(f"INVARIANT {i}\n" for i in invs) + "INVARIANT EmitCase\n", tag="c10", env={"OUT_FILE": str(out)}, timeout=3400)
+    if r.violated:
+        ctx.model_violation(r, "MC_Metadata")
+    ctx.add_tlc(r, f"metadata of python-expression factors ({', '.join(invs)}) + emission; <= {maxterms} terms")
+    # the design errors must be refuted on the family, otherwise it cannot tell them from the implementation (1 term suffices, and is fast)
+    for variant, inv in (("skip-keywords", "NonInterference"), ("prune-state", "SubsetRegenerates")):
+        v = run_tlc("MC_Metadata", base.replace('"code"', f'"{variant}"').replace("Emit = TRUE", "Emit = FALSE").replace(f"MaxTerms = {maxterms}", "MaxTerms = 1")
+                    + f"INVARIANT {inv}\n", tag="c10", timeout=3000)
+        if inv not in v.violated:
+            raise MachineryError(f"MC_Metadata: variant {variant} does not violate {inv} - the family of python factors is vacuous")
+    ctx.notes["metadata_design_errors_refuted"] = ["skip-keywords (NonInterference)", "prune-state (SubsetRegenerates)"]
+    cases = read_emitted(out)
+    out.unlink()
+    if not cases:
+        raise MachineryError("MC_Metadata emitted nothing")
+    res = pmap("harness.props.c10", "replay_meta", cases, chunk=50)
+    seen = {"keyword": 0, "receiver": 0, "positional": 0, "operand": 0, "stateful-nested": 0}
+    for c, (bad, n) in zip(cases, res):
+        ctx.traces += n
+        ctx.evaluations += n
+        for pos in {pos for t in c["reads"] for _, pos in t} & set(seen):
+            seen[pos] += 1
+        if any(s_["key"] != f and s_["key"] in f for s_ in c["state"] for t in c["terms"] for f in t):      # a recorded call inside a larger factor
+            seen["stateful-nested"] += 1
+        if len(c["terms"]) >= 2 and len(c["names"]) >= 3:
+            ctx.nontrivial.add(jhash(["meta", c["written"], c["icpt"], c["tid"], c["full_rank"]]))
+        for b in bad:
+            ctx.violation({k: b[k] for k in ("formula", "tid", "output", "full_rank")} | {"accessor": b["why"]}, b, kind="replay")
+    for k, n in seen.items():
+        ctx.require(f"metadata replay: cases with a {k} read", n, 20)
+    for c in [c for c in cases if len(c["names"]) >= 4 and c["state"]][:1]:
+        ctx.sample({"formula": matlib.render_formula(c["written"], c["icpt"]), "terms": c["terms"], "reads": c["reads"], "state": c["state"], "names": c["names"]})
+
+
 def run(ctx: Ctx) -> None:
     global FRAMES
     ctx.rule = ("the (formula, frame, options) enumeration of MC_Materialize (interactions in both factor orders, zero-column terms, multi-column "
@@ -131,6 +270,7 @@ def run(ctx: Ctx) -> None:
     ctx.require("replay: cases the model builds", sum(1 for c in cases if not (c["fails"] or c["empty"])), 1000)
     for c in [c for c in cases if len(c["names"]) >= 4 and len(c["terms"]) >= 3][:2]:
         ctx.sample({"formula": matlib.render_formula(c["written"], c["icpt"]), "terms": c["terms"], "slices": c["slices"], "names": c["names"]})
+    meta_leg(ctx)
     ctx.exhaustive = True
 
 
